@@ -612,7 +612,7 @@ func (c *Client) completeCPP(
 
 	// If subchannel proposal receiver, setup register funding update.
 	if prop.Type() == wire.SubChannelProposal && partIdx == ProposeeIdx {
-		parent.registerSubChannelFunding(ch.ID(), propBase.InitBals.Sum())
+		parent.registerSubChannelFunding(ch.ID(), propBase.InitBals.Balances)
 	}
 
 	if err := c.pr.ChannelCreated(ctx, ch.machine, peers, parentChannelID); err != nil {
